@@ -61,6 +61,29 @@ def diff(ctx, p):
     ctx.require(_kind(exc_r) == _kind(exc_m), "outcome differs from the documented one (returns / library error)")
     ctx.require(nets.same(nets.snap(net, counter=True), model.snap()), "network after the edit differs from the documented effect")
     ctx.require(("UserWarning" in w_r) == ("UserWarning" in w_m), "warning behaviour differs from the documented one")
+    if p["op"] in ("convert_labels", "cleanup") or ctx.violations:
+        return
+    # any SEQUENCE of edits: one further documented edit from the reached state (a state
+    # that only looks right - e.g. membership sets shared between nodes - shows here)
+    y = ctx.fresh("fy")
+    ctx.assume(*[y != n for n in net._node if nets.intlike(n)])
+    x = next(iter(net._node), None)
+    if x is None:
+        x = ctx.fresh("fx")
+    mem = ([x], [y]) if p["cls"] == "D" else [x, y]
+    import warnings
+
+    with warnings.catch_warnings():
+        warnings.simplefilter("ignore")
+        try:
+            net.add_edge(mem)
+        except Exception:
+            pass
+        try:
+            model.add_edge(mem)
+        except Exception:
+            pass
+    ctx.require(nets.same(nets.snap(net, counter=True), model.snap()), "after one further add_edge the network differs from the documented effect of the sequence")
 
 
 @harness("C05.moves")
